@@ -161,7 +161,11 @@ def run_suite(suite, prop, tier, workdir):
     suite_dir = os.path.join(VERIF, 'kani', suite)
     cfg = json.load(open(os.path.join(suite_dir, 'suite.json')))
     res = dict(cmds=[], fatals=[], obligations=[], solver_ms=0, bounded=[], assumptions={})
-    hs = [h for h in cfg['harnesses'] if prop in h.get('props', []) and (tier == 'thorough' or h.get('tier', 'quick') == 'quick')]
+    hs = [h for h in cfg['harnesses'] if prop in h.get('props', []) and h.get('tier', 'quick') != 'selftest'
+          and (tier == 'thorough' or h.get('tier', 'quick') == 'quick')]
+    if tier == 'thorough':
+        # vacuity self-tests: harnesses that must be refuted
+        hs += [h for h in cfg['harnesses'] if prop in h.get('props', []) and h.get('tier') == 'selftest']
     if not hs:
         return res
     try:
@@ -183,6 +187,13 @@ def run_suite(suite, prop, tier, workdir):
             for f in futs:
                 obs.append(f.result())
         for h, ob in zip(hs, obs):
+            if h.get('tier') == 'selftest':
+                ob.pop('_cmd', None)
+                ok = ob['status'] == 'refuted'
+                res.setdefault('selftests', []).append(dict(name=ob['name'], refuted_as_expected=ok))
+                if not ok:
+                    res['fatals'].append('vacuity self-test %s was expected to be refuted but is %s' % (ob['name'], ob['status']))
+                continue
             if ob['status'] == 'refuted':
                 playback(ws, cfg, h, ob)
                 ob['replay_cmd'] = 'scratch copy of /repo + /verif/kani/%s appended; cargo kani -p %s --harness %s -Z concrete-playback --concrete-playback=print' % (suite, cfg['package'], h['name'])
